@@ -56,6 +56,10 @@ pub enum Error {
     UnexpectedChar(String, usize),
     #[error("comma required at {0}")]
     CommaRequired(usize),
+    #[error("incomplete digit group at {0}")]
+    IncompleteGroup(usize),
+    #[error("no digit in the number")]
+    NoDigit,
     #[error("unexpressible decimal {0}")]
     InvalidDecimal(#[from] rust_decimal::Error),
 }
@@ -127,6 +131,7 @@ impl FromStr for PrettyDecimal {
         let mut scale: Option<u32> = None;
         let mut prefix_len = 0;
         let mut sign = 1;
+        let mut has_digit = false;
         let aligned_comma = |offset, cp, pos| match (cp, pos) {
             (None, _) if pos > offset && pos <= 3 + offset => true,
             _ if cp == Some(pos) => true,
@@ -138,11 +143,13 @@ impl FromStr for PrettyDecimal {
                     prefix_len = 1;
                     sign = -1;
                 }
-                (_, _, b',') if aligned_comma(prefix_len, comma_pos, i) => {
+                (_, _, b',') if scale.is_none() && aligned_comma(prefix_len, comma_pos, i) => {
                     format = Some(Format::Comma3Dot);
                     comma_pos = Some(i + 4);
                 }
-                (_, _, b'.') if comma_pos.is_none() || comma_pos == Some(i) => {
+                (_, _, b'.')
+                    if scale.is_none() && (comma_pos.is_none() || comma_pos == Some(i)) =>
+                {
                     scale = Some(0);
                     comma_pos = None;
                 }
@@ -153,13 +160,23 @@ impl FromStr for PrettyDecimal {
                     if scale.is_none() && format.is_none() && i >= 3 + prefix_len {
                         format = Some(Format::Plain);
                     }
-                    mantissa = mantissa * 10 + (c as u32 - '0' as u32) as i128;
+                    mantissa = mantissa
+                        .checked_mul(10)
+                        .and_then(|m| m.checked_add((c as u32 - '0' as u32) as i128))
+                        .ok_or(rust_decimal::Error::ExceedsMaximumPossibleValue)?;
                     scale = scale.map(|x| x + 1);
+                    has_digit = true;
                 }
                 _ => {
                     return Err(Error::UnexpectedChar(try_find_char(s, i, c), i));
                 }
             }
+        }
+        if comma_pos.is_some_and(|cp| cp != s.len()) {
+            return Err(Error::IncompleteGroup(s.len()));
+        }
+        if !has_digit {
+            return Err(Error::NoDigit);
         }
         let value = Decimal::try_from_i128_with_scale(sign * mantissa, scale.unwrap_or(0))?;
         Ok(Self { format, value })
@@ -185,12 +202,17 @@ impl Display for PrettyDecimal {
                 if self.value.is_sign_negative() {
                     write!(f, "-")?;
                 }
-                let mantissa = self.value.abs().mantissa().to_string();
                 let scale: usize = self
                     .value
                     .scale()
                     .try_into()
                     .expect("32-bit or larger bit only");
+                // at least one integral digit, so that mantissa.len() > scale.
+                let mantissa = format!(
+                    "{:0>width$}",
+                    self.value.abs().mantissa(),
+                    width = scale + 1
+                );
                 let mut remainder = mantissa.as_str();
                 // Here we assume mantissa is all ASCII (given it's [0-9.]+)
                 let mut initial_integer = true;
